@@ -51,6 +51,15 @@ CHECKS.update({
     ),
 })
 
+CHECKS.update({
+    "C18": dict(
+        category="fault_enumeration",
+        text="exhaustive fault-point enumeration: for every document of layers A (<=5/6 bytes), C, D and the six smallest sample files, every chunking in {1,2,3,whole}, three configurations and both streaming sources (buffered, hand-polled async), the fault-free run fixes the number N of refill calls; every index i<N is then used for Interrupted (single, every pair i<j, three consecutive) and for a hard error of two kinds; interrupts must leave the complete trace unchanged, a hard error must give an exact prefix of the fault-free trace followed by Error::Io of that kind",
+        note="nothing is asserted about calls after an I/O error (not stated by the property); deviation bound 2 for arbitrary interrupt placements, 3 for consecutive ones",
+        technique="exhaustive enumeration of fault points and fault sequences up to a deviation bound over a scripted BufRead/AsyncBufRead, differential against the fault-free run",
+    ),
+})
+
 PENDING_REASON = "check not built yet (work in progress; see DESIGN.md §9 for the order of work)"
 
 ALL = ["C%02d" % i for i in range(1, 21)]
